@@ -33,6 +33,7 @@ Step ==
         \/ classes[p] # <<>> /\ RegisterClass(p, Rec(3, 3, <<2>>))
         \/ AddDefinition(p, 1, 1, <<3>>)
         \/ \E id \in 1..MaxH, st \in 1..3, dyn \in 1..3 : MakeVptr(p, id, st, dyn, id, Ind(p), "ref")
+        \/ \E id \in 1..MaxH, st \in 1..3 : MakeVptrEarly(p, id, st, st, id, Ind(p), "ref")   \* exact type, before / between updates
         \/ \E id \in 1..MaxH, from \in DOMAIN vps : DeriveVptr(id, from)
         \/ \E id \in DOMAIN vps : DropVptr(id)
         \/ \E id \in DOMAIN vps : VpCall(p, 1, <<id>>)
@@ -45,6 +46,9 @@ DirectNeverOutlivesUpdate ==
 IndirectSurvives ==
     \A id \in DOMAIN vps :
         (vps[id].ind /\ inst[vps[id].p].ok /\ fresh[vps[id].p] /\ vps[id].dyn \in inst[vps[id].p].cls) => VpValid(vps[id])
+(* early handles exist for indirect policies only, and are not valid before an update has installed their class *)
+EarlyOnlyIndirect ==
+    \A id \in DOMAIN vps : (~vps[id].ind) => vps[id].epoch > 0
 (* a call through valid handles always has an outcome defined by the oracle *)
 CallsDefined ==
     \A id \in DOMAIN vps : VpCallLegal(vps[id].p, 1, <<id>>) =>
